@@ -111,6 +111,10 @@ def _extra():
     for kw in ("inline ", ""):
         add("opt-inlined-protected-branch", "unsigned char i, c; %svoid f() { for (X = 0; X <= 10; X++) i++; }" % kw, "c = 200; c += 100; i = 0; f();", {"expect": {"i": 11}}, "carry set before the %scall" % kw)
         add("opt-inlined-protected-branch", "unsigned char i, c; %svoid f() { for (X = 0; X <= 10; X++) i++; }" % kw, "c = 1; c += 1; i = 0; f();", {"expect": {"i": 11}}, "carry clear before the %scall" % kw)
+    # a far `>` branch repaired inside an inline function (BEQ .fixup / BCS .fix), then copied behind a constant argument: the compare must survive
+    for k, pre in ((5, ""), (3, "c = 200; c += 100; "), (2, "c = 200; c += 100; "), (9, "c = 200; c += 100; ")):
+        add("opt-inlined-far-branch-pair", "unsigned char a[4], b[4], c; inline void f(unsigned char p) { if (p > 3) { %s } }" % " ".join("a[X] = b[X];" for _ in range(33)),
+            "%sX = 0; f(%d);" % (pre, k), {"init": {"b": 7}, "expect": {"a": 7 if k > 3 else 0}}, "f(%d): p > 3 over 132 bytes, carry %s before the call" % (k, "set" if pre else "clear"))
     # inline assembly can change any register: nothing the optimizer knew before it holds after it; a transfer to X / Y changes N and Z
     add("opt-across-inline-asm", "unsigned char r;", "X = 0; asm(\"LDX #5\", 2); X = 0; r = X;", {"expect": {"r": 0}}, "LDX #0 again after the asm line")
     add("opt-across-inline-asm", "unsigned char r, v;", "v = 3; asm(\"LDA #9\", 2); r = v;", {"expect": {"r": 3}}, "A reloaded after the asm line")
